@@ -41,9 +41,9 @@
 #include "byteswap.h"
 
 #if __BYTE_ORDER__ == __ORDER_LITTLE_ENDIAN__
-#define BYTESWAP16(x) x
-#define BYTESWAP32(x) x
-#define BYTESWAP64(x) x
+#define BYTESWAP16(x) (x)
+#define BYTESWAP32(x) (x)
+#define BYTESWAP64(x) (x)
 #else
 #define BYTESWAP16(x) (__bswap_16(x))
 #define BYTESWAP32(x) (__bswap_32(x))
